@@ -114,4 +114,118 @@ theorem project_handlers (p : Nat → Bool) (i : Nat) (attached : List Nat) :
         rw [show (if false = true then j :: List.filter p rest else List.filter p rest) = List.filter p rest from rfl, ih]
         simp [hj]
 
+
+/-! ### construction paths -/
+
+theorem foldl_push {α} (acc d : List α) : d.foldl (fun acc f => acc ++ [f]) acc = acc ++ d := by
+  induction d generalizing acc with
+  | nil => simp
+  | cons x xs ih => simp [ih]
+
+theorem builderChain_eq (declared : List Filter) : builderChain declared = declared := by
+  unfold builderChain
+  rw [foldl_push]; rfl
+
+/-- the entries that deserialize, in document order -/
+def validEntries : List FilterEntry → List Filter
+  | [] => []
+  | .ok f :: rest => f :: validEntries rest
+  | .bad :: rest => validEntries rest
+
+theorem configChain_fold (doc : List FilterEntry) (acc : List Filter × Nat) :
+    doc.foldl configStep acc = (acc.1 ++ validEntries doc, acc.2 + doc.count .bad) := by
+  induction doc generalizing acc with
+  | nil => simp [validEntries]
+  | cons e rest ih =>
+    cases e with
+    | ok f => simp [ih, validEntries, configStep]
+    | bad => simp [ih, validEntries, configStep]; omega
+
+theorem configChain_eq (doc : List FilterEntry) :
+    configChain doc = (validEntries doc, doc.count .bad) := by
+  unfold configChain
+  rw [configChain_fold]; simp
+
+theorem validEntries_map_ok (declared : List Filter) :
+    validEntries (declared.map FilterEntry.ok) = declared := by
+  induction declared with
+  | nil => rfl
+  | cons f rest ih => simp [validEntries, ih]
+
+theorem count_bad_map_ok (declared : List Filter) :
+    (declared.map FilterEntry.ok).count .bad = 0 := by
+  induction declared with
+  | nil => rfl
+  | cons f rest ih => simp [ih]
+
+/-! ### prefixes that cannot accept -/
+
+theorem runChain_prefix_no_accept (lvl : Nat) (pre rest : List Filter)
+    (h : ∀ f ∈ pre, f.respond lvl ≠ .accept) :
+    (runChain lvl (pre ++ rest)).2 =
+      (pre.all (fun f => f.respond lvl = .neutral) && (runChain lvl rest).2) := by
+  induction pre with
+  | nil => simp
+  | cons f fs ih =>
+    have hf := h f (by simp)
+    have ih' := ih (fun g hg => h g (by simp [hg]))
+    simp only [List.cons_append, runChain, List.all_cons]
+    cases hr : f.respond lvl with
+    | accept => exact absurd hr hf
+    | neutral => simp [ih']
+    | reject => simp
+
+theorem threshold_respond_ne_accept (t lvl : Nat) : (Filter.threshold t).respond lvl ≠ .accept := by
+  simp only [Filter.respond, thresholdFilter]
+  split <;> simp
+
+theorem threshold_neutral_iff (t lvl : Nat) : (Filter.threshold t).respond lvl = .neutral ↔ lvl ≤ t := by
+  simp only [Filter.respond, thresholdFilter]
+  by_cases h : lvl > t
+  · simp [h]
+  · simp [h]; omega
+
+/-- a filter whose answer depends on the level alone and is never Accept: a threshold, or a scripted
+Neutral -/
+def LevelGate : Filter → Prop
+  | .threshold _ => True
+  | .fixed r => r = .neutral
+
+/-- the thresholds among the filters of a list -/
+def thresholdsOf : List Filter → List Nat
+  | [] => []
+  | .threshold t :: rest => t :: thresholdsOf rest
+  | .fixed _ :: rest => thresholdsOf rest
+
+theorem gates_all_neutral (lvl : Nat) (pre : List Filter) (h : ∀ f ∈ pre, LevelGate f) :
+    pre.all (fun f => f.respond lvl = .neutral) = (thresholdsOf pre).all (fun t => decide (lvl ≤ t)) := by
+  induction pre with
+  | nil => rfl
+  | cons f fs ih =>
+    have ih' := ih (fun g hg => h g (by simp [hg]))
+    have hf := h f (by simp)
+    cases f with
+    | threshold t =>
+      simp only [List.all_cons, thresholdsOf, ih']
+      congr 1
+      rw [Bool.eq_iff_iff]
+      simp [threshold_neutral_iff]
+    | fixed r =>
+      simp only [LevelGate] at hf
+      subst hf
+      simp only [List.all_cons, thresholdsOf, ← ih']
+      simp [Filter.respond]
+
+theorem gates_no_accept (lvl : Nat) (pre : List Filter) (h : ∀ f ∈ pre, LevelGate f) :
+    ∀ f ∈ pre, f.respond lvl ≠ .accept := by
+  intro f hf
+  have := h f hf
+  cases f with
+  | threshold t => exact threshold_respond_ne_accept t lvl
+  | fixed r => simp only [LevelGate] at this; subst this; simp [Filter.respond]
+
+theorem all_le_iff_le_min (lvl : Nat) (ts : List Nat) (m : Nat) (h : ts.min? = some m) :
+    (∀ t ∈ ts, lvl ≤ t) ↔ lvl ≤ m := by
+  exact (List.le_min?_iff h).symm
+
 end Log4rs.Routing
